@@ -13,7 +13,8 @@
    v1_process_edge_rule, v1_traversal (depth <= 3, every sign assignment), and the
    determinism scan.  Vertex positions (QEF / SVD) are not modelled. *)
 From Coq Require Import List ZArith NArith Lia Bool Permutation FMapPositive.
-From Sdfx Require Import Generated.DCTables Algo.DualGrid.
+From Sdfx Require Import Generated.DCTables.
+From Sdfx Require Import Algo.DualGrid.
 Import ListNotations.
 Open Scope Z_scope.
 
